@@ -7,11 +7,13 @@ identifiers per dialect quoting rule, extra trailing semicolons); tables and nam
 not change.  Tie: the rewritten text goes through suite T2/T4 (tree model on the parser's trees)."""
 from __future__ import annotations
 
+import re
+
 import astgen
 import corpus
 import sqltie
 import t2tie
-from common import Check, rng, tier
+from common import load_known, Check, rng, tier
 
 QUOTE = {"ansi": ('"', '"'), "mysql": ("`", "`"), "tsql": ("[", "]"), "bigquery": ("`", "`"), "postgres": ('"', '"'),
          "sparksql": ("`", "`"), "snowflake": ('"', '"')}
@@ -84,6 +86,37 @@ def main() -> int:
             if x.get("wf_problems"):
                 disagreements.append({"suite": "tree-wf", "dialect": d, "sql": x["rec"]["sql"], "problems": x["wf_problems"][:5]})
         dist["statements"] += len(stmts)
+    # '# ...' line comments (MySQL family, and the legacy analyzer whose lexer knows them too)
+    hash_pool = [" # h\n", " # pick; more\n", "\n# note\n"]
+    for d in ["mysql", "non-validating"] + ([] if quick else ["mariadb"]):
+        base = t2tie.summaries(sqltie.records(stmts, dialect=d))
+        for lvl in (0.15, 0.5):
+            recs = sqltie.records(stmts, dialect=d, opts=astgen.Opts(noise=lambda i, lvl=lvl: r.choice(hash_pool) if r.random() < lvl else " "))
+            for s, rec, b, g in zip(stmts, recs, base, t2tie.summaries(recs)):
+                ck.count()
+                dist["variants"]["hash-comment"] = dist["variants"].get("hash-comment", 0) + 1
+                if d == "non-validating" and re.search(r"union\s*(#[^\n]*)?\n[^a-z]*all\b", rec["sql"], re.I | re.S):
+                    continue        # recorded: K-C07-1 (replayed below)
+                if b.startswith("ERR:InvalidSyntax") or g.startswith("ERR:InvalidSyntax") or "#" not in rec["sql"]:
+                    dist["rejected_by_parser"] += b.startswith("ERR") or g.startswith("ERR")
+                    continue
+                ck.nontriv((d, "hash-comment", rec["sql"]))
+                if d == "non-validating":
+                    # the legacy analyzer names an un-aliased expression column after its text (exempt): compare sources per target table
+                    proj = lambda x: x.split("#")[0] + "#" + ";".join(sorted({p.split(">")[0] for p in x.split("#", 1)[1].split(";") if p})) if "#" in x else x
+                    b, g = proj(b), proj(g)
+                if b != g:
+                    spec_failures.append({"suite": "metamorphic", "dialect": d, "rewrite": "hash-comment", "plain_sql": astgen.to_sql(s),
+                                          "rewritten_sql": rec["sql"], "plain_result": b, "rewritten_result": g,
+                                          "spec": "a '# ...' line comment between tokens changes nothing"})
+    for f in load_known():
+        if f["property"] == "C07" and f["status"] == "known" and "replay" in f:
+            rp = f["replay"]
+            a, b2 = t2tie.summaries([{"sql": rp["plain"], "dialect": rp["dialect"], "metadata": None, "config": {}},
+                                     {"sql": rp["rewritten"], "dialect": rp["dialect"], "metadata": None, "config": {}}])
+            ck.count()
+            if a != b2:
+                ck.known(f["id"], f["what"] + " (replayed: %r -> %s instead of %s)" % (rp["rewritten"], b2, a))
     # corpus: case and layout rewrites that need no knowledge of the grammar (keywords are not touched)
     recs = [x for x in corpus.load() if x["dialect"] == "ansi" and not x.get("metadata") and not x.get("origin", "").startswith("tpcds")
             and not any(v for v in (x.get("config") or {}).values())]
@@ -100,7 +133,7 @@ def main() -> int:
     ck.conclude(spec_failures, disagreements, proofs_ok,
                 "correspondence T2 (rewritten text) between Tree/*.v (theorems c07_*) and sqllineage/core/parser/sqlfluff",
                 "every rewrite of every generated statement was compared with the plain text on the implementation; no failing input")
-    return ck.finish(rule="%d generated statements x 11 rewrites (noise at token boundaries: line breaks, line and block comments containing ';'; keyword case; "
+    return ck.finish(rule="%d generated statements x 11 rewrites (noise at token boundaries: line breaks, line and block comments containing ';', '# ' comments under mysql and the legacy analyzer; keyword case; "
                           "identifier case; quoting per dialect; ';;'; missing ';'; optional AS) x dialects %s; corpus statements padded with blank lines and "
                           "semicolons; non-trivial = distinct (dialect, rewrite, SQL) with lineage" % (n, ",".join(dialects)))
 
